@@ -131,6 +131,11 @@ func (c *Ctx) Op(format string, a ...interface{}) {
 	fmt.Fprintln(c.ops, l)
 }
 
+// OpLocal records a line in the replayable history without sending it to the model.
+func (c *Ctx) OpLocal(format string, a ...interface{}) {
+	c.cur = append(c.cur, fmt.Sprintf(format, a...))
+}
+
 // OpQuiet writes a request line that is not kept in the replayable history (bulk tables).
 func (c *Ctx) OpQuiet(l string) { fmt.Fprintln(c.ops, l) }
 
